@@ -19,7 +19,7 @@ use tree_sitter_graph::{ParseError, VariableError};
 pub struct C06;
 
 #[derive(Clone, Copy, Debug, PartialEq, Eq)]
-enum BlockKind {
+pub enum BlockKind {
     Top,
     IfArm,
     ElifArm,
@@ -29,7 +29,7 @@ enum BlockKind {
 }
 
 impl BlockKind {
-    fn name(&self) -> &'static str {
+    pub fn name(&self) -> &'static str {
         match self {
             BlockKind::Top => "top",
             BlockKind::IfArm => "if",
@@ -42,7 +42,7 @@ impl BlockKind {
 }
 
 /// preorder enumeration of all blocks: (stanza index, depth, kind)
-fn list_blocks(file: &GFile) -> Vec<(usize, usize, BlockKind)> {
+pub fn list_blocks(file: &GFile) -> Vec<(usize, usize, BlockKind)> {
     fn go(stmts: &[GStmt], si: usize, depth: usize, out: &mut Vec<(usize, usize, BlockKind)>) {
         for s in stmts {
             match &s.kind {
@@ -76,7 +76,7 @@ fn list_blocks(file: &GFile) -> Vec<(usize, usize, BlockKind)> {
 }
 
 /// apply `f` to the `target`-th block (same preorder as `list_blocks`)
-fn with_block(file: &mut GFile, target: usize, f: &mut dyn FnMut(&mut Vec<GStmt>)) {
+pub fn with_block(file: &mut GFile, target: usize, f: &mut dyn FnMut(&mut Vec<GStmt>)) {
     fn go(stmts: &mut Vec<GStmt>, counter: &mut usize, target: usize, f: &mut dyn FnMut(&mut Vec<GStmt>)) -> bool {
         for s in stmts.iter_mut() {
             match &mut s.kind {
